@@ -206,6 +206,50 @@ def run(plan: dict[str, Any]) -> dict[str, Any]:
             R.violate("C16.rejected-do-not-advance", "successor-rejected-after-tampered-variants",
                       f"the untouched successor frame delivered {[o.hex() for o in out]} {esc!r}")
         R.probes["pass_C_runs"] += 1
+    # pass D: the node is sending a secured telegram of its own (waiting for the L_Data.con) when tampered copies of that very
+    # frame come back from the bus as indications - same source (its own address is a known sender), sequence number and MAC,
+    # bits of the secured APDU flipped. Nothing computed for the frame being sent may vouch for what is received.
+    if ok and cfg["algo"] == "enc" and plan["seed"] % 3 == 0:
+        import asyncio
+        from xknx.dpt import DPTArray
+        from xknx.telegram import GroupAddress, Telegram
+        from xknx.telegram.apci import GroupValueWrite
+        own = 0x5001
+        handler.data_secure = rx.make_ds(table={src: seq - 1, own: 0})
+        sent: list[bytes] = []
+        rx.stub.on_send = lambda raw, rec: sent.append(raw)
+        rx.stub.default = {"lat": 0.0, "out": "ok", "con": "after", "con_d": 0.5}
+        n_bad = [0]
+
+        async def main():
+            tg = Telegram(destination_address=GroupAddress(ga), payload=GroupValueWrite(DPTArray(tuple(apdu[2:]) or (1,))))
+            task = R.loop.create_task(handler.send_telegram(tg))
+            await asyncio.sleep(0.01)
+            if sent:
+                own_ind = bytes((W.L_DATA_IND,)) + sent[0][1:]
+                ps_ = D.parse_secure(own_ind)
+                n_ = len(own_ind)
+                # secured APDU = everything between the sequence number and the MAC
+                for off in range(n_ - 4 - max(0, len(ps_["asdu"]) - 10), n_ - 4):
+                    for bit in range(8):
+                        b = bytearray(own_ind)
+                        b[off] ^= 1 << bit
+                        out_, esc_ = deliver(bytes(b), fresh=False)
+                        if out_:
+                            n_bad[0] += 1
+                            R.violate("C16.tamper-rejected", "tampered-copy-of-the-frame-being-sent-delivered",
+                                      f"while the node waited for the confirmation of {sent[0].hex()} a copy with octet {off} bit {bit} "
+                                      f"flipped was delivered: {[o.hex() for o in out_]}")
+                            break
+                    if n_bad[0]:
+                        break
+                R.extra_faults["tampered_loopback_while_sending"] += 1
+            await asyncio.wait([task], timeout=5.0)
+            if not task.done():
+                task.cancel()
+            await asyncio.gather(task, return_exceptions=True)
+        R.execute(main())
+        R.probes["pass_D_runs"] += 1
     R.probes["variants_delivered"] += stats["variants"]
     R.probes["undecoded_data_secure_counter"] += rx.xknx.connection_manager.undecoded_data_secure
     return R.result(nontrivial=ok, abstract=[cfg["algo"], ln, cfg["hops"], cfg["prio"], cfg["repeat"]])
